@@ -23,6 +23,7 @@ mod c19;
 mod cli;
 mod c20;
 mod o1;
+mod proto;
 mod space;
 #[cfg(ragc_verif_sched)]
 mod schedx;
